@@ -1263,10 +1263,9 @@ impl Tuple {
     }
 
     pub(crate) fn delete(&mut self, xid: TransactionId) -> TupleResult<()> {
-        if self.is_deleted() {
-            return Ok(());
-        }
-
+        // Callers only delete tuples that are visible to them, so an existing mark belongs to a transaction
+        // that did not commit before the caller's snapshot (typically a rolled-back one): it must not
+        // swallow this delete.
         let buffer = self.data.effective_data_mut();
         let (mut header, _) = TupleHeader::read_from(buffer, 0);
         header.xmax = xid as i64;
